@@ -1,7 +1,8 @@
+import OpenHTF.Proofs.C04
 import OpenHTF.Proofs.Lemmas.Exec
 /-
 C03 — PhaseGroup teardown always runs once the group was entered (sequential part: every nesting,
-every behaviour of main). The single-abort part is in Proofs/C03Abort (interleaving model).
+every behaviour of main). The single-abort part is in Proofs/C04 (interleaving model, theorems c03_*).
 -/
 namespace OpenHTF.Exec
 
